@@ -3,19 +3,21 @@ package main
 // System-level properties: C12 (tables = SPDX source data), C13 (purity / concurrency), C14 (cost).
 
 import (
-	"syscall"
-	"runtime/metrics"
 	"bytes"
 	"encoding/json"
 	"fmt"
+	"github.com/github/go-spdx/v2/spdxexp/spdxlicenses"
 	"io"
 	"os"
 	"os/exec"
 	"path/filepath"
 	"runtime"
+	"runtime/metrics"
+	"sort"
 	"strconv"
 	"strings"
 	"sync"
+	"syscall"
 	"time"
 
 	"github.com/github/go-spdx/v2/spdxexp"
@@ -241,7 +243,45 @@ func init() {
 				}
 			}
 		}
+		// "nothing else": a string that differs from a listed id by a non-ASCII character which Unicode case folding maps to the
+		// ASCII letter (U+017F for s, U+212A for k) is in none of the three lists and must be rejected everywhere
+		for _, id := range append(append([]string{}, tblActive...), tblDeprecated...) {
+			for _, c := range confusables(strings.TrimSuffix(id, "+")) {
+				valid(c, false, "a string that is on none of the lists (a Unicode look-alike of "+id+") is accepted as a license id")
+				res.Evaluations++
+				if r := implSat(strings.TrimSuffix(id, "+"), []string{c}); r.err == nil && r.panicv == nil {
+					fail(failure{Stream: "oracle", What: "a Unicode look-alike of a listed id is accepted as an allowed entry", Case: &kase{Expr: id, ExprHex: hx(id), Allowed: []string{c}}, Impl: r.String(), Expected: "error"})
+				}
+			}
+		}
+		for _, e := range tblExceptions {
+			for _, c := range confusables(e) {
+				valid("MIT WITH "+c, false, "a string that is on none of the lists (a Unicode look-alike of "+e+") is accepted as an exception id")
+			}
+		}
 		sample(map[string]interface{}{"license": tblActive[0], "exception": tblExceptions[0]})
+		// (5) LAST: the lists "the library validates against" stay what the SPDX data says even after a caller has written into
+		// the slices the getters returned
+		if f := gettersHandOutCopies(); f != nil {
+			fail(*f)
+		}
+		for _, c := range []struct {
+			name      string
+			json, tbl []string
+		}{{"active", ja, spdxlicenses.GetLicenses()}, {"deprecated", jd, spdxlicenses.GetDeprecated()}, {"exception", je, spdxlicenses.GetExceptions()}} {
+			res.Evaluations++
+			if i, ok := listEq(c.json, c.tbl); !ok {
+				fail(failure{Stream: "oracle", What: fmt.Sprintf("after a caller wrote into the getters' results, the %s table differs from the SPDX JSON data at position %d", c.name, i), Case: &kase{Extra: map[string]string{"table": c.name, "json": at(c.json, i), "history": "write into the getters' results"}}})
+			}
+		}
+		for _, id := range []string{tblActive[0], tblActive[len(tblActive)-1], "MIT", "Apache-2.0", "GPL-2.0-only"} {
+			res.Evaluations++
+			if !implValid(id) || !implValid("MIT WITH "+ja0(je)) {
+				fail(failure{Stream: "oracle", What: "after a caller wrote into the getters' results, a listed id is no longer accepted", Case: &kase{Expr: id, ExprHex: hx(id), Extra: map[string]string{"history": "write into the getters' results"}}, Impl: "invalid", Expected: "valid"})
+				break
+			}
+		}
+		loadTables()
 	}
 	replays["C12"] = func(k *kase) *failure {
 		if k.Expr != "" {
@@ -249,6 +289,66 @@ func init() {
 		}
 		return &failure{Stream: "oracle", What: "re-run the check: generator / table finding", Case: k}
 	}
+}
+
+func ja0(l []string) string {
+	if len(l) == 0 {
+		return "389-exception"
+	}
+	return l[0]
+}
+
+// gettersHandOutCopies: write into everything the public getters of package spdxlicenses return, then ask again; what
+// comes back must be what came back the first time.  (Run LAST in a check: if the getters share storage, the harness's own
+// copies of the tables are damaged too.)
+func gettersHandOutCopies() *failure {
+	type getter struct {
+		name string
+		get  func() []string
+	}
+	flatRanges := func() []string {
+		var o []string
+		for _, f := range spdxlicenses.LicenseRanges() {
+			for _, g := range f {
+				o = append(o, g...)
+				o = append(o, "|")
+			}
+			o = append(o, "#")
+		}
+		return o
+	}
+	for _, g := range []getter{{"GetLicenses", spdxlicenses.GetLicenses}, {"GetDeprecated", spdxlicenses.GetDeprecated}, {"GetExceptions", spdxlicenses.GetExceptions}} {
+		first := g.get()
+		pristine := append([]string{}, first...)
+		for i := range first {
+			first[i] = strings.ToLower(first[i]) + "-overwritten"
+		}
+		if len(first) > 1 {
+			first[0], first[len(first)-1] = first[len(first)-1], first[0]
+		}
+		_ = append(first[:len(first)/2], "squeezed-in")
+		res.Evaluations++
+		count("getter_results_overwritten")
+		if i, ok := listEq(g.get(), pristine); !ok {
+			return &failure{Stream: "oracle", What: "spdxlicenses." + g.name + "() hands out storage the library keeps using: after the caller wrote into the returned slice, the next call returns different data (first difference at index " + itoa(i) + ")", Case: &kase{Extra: map[string]string{"getter": g.name}}, Impl: "changed", Expected: "the same list as before"}
+		}
+	}
+	before := flatRanges()
+	for _, f := range spdxlicenses.LicenseRanges() {
+		for _, g := range f {
+			for i := range g {
+				g[i] = "overwritten"
+			}
+		}
+		if len(f) > 1 {
+			f[0], f[len(f)-1] = f[len(f)-1], f[0]
+		}
+	}
+	res.Evaluations++
+	if i, ok := listEq(flatRanges(), before); !ok {
+		return &failure{Stream: "oracle", What: "spdxlicenses.LicenseRanges() hands out storage the library keeps using (first difference at flat index " + itoa(i) + ")", Case: &kase{Extra: map[string]string{"getter": "LicenseRanges"}}, Impl: "changed", Expected: "the same table as before"}
+	}
+	return nil
 }
 
 // ---------------------------------------------------------------- C13
@@ -336,6 +436,25 @@ func genWorkload(n int) []*call {
 			w = append(w, &call{fn: 0, expr: e, list: []string{"MIT"}}, &call{fn: 1, expr: e}, &call{fn: 2, list: []string{"MIT", e}},
 				&call{fn: 0, expr: "MIT", list: []string{"MIT", e}})
 		}
+	}
+	// a valid list, then ONE entry that is that list joined by a separator (a cache keyed by the joined text cannot tell
+	// them apart; the joined entry is never valid)
+	for i := 0; i < 12; i++ {
+		c := genTreeCase(2, 3)
+		if len(c.allowed) < 2 {
+			continue
+		}
+		w = append(w, &call{fn: 0, expr: c.text, list: c.allowed})
+		for _, sep := range []string{",", " ", ";", "\x00", "|", "\n", ", ", ""} {
+			j := strings.Join(c.allowed, sep)
+			w = append(w, &call{fn: 0, expr: c.text, list: []string{j}}, &call{fn: 2, list: []string{j}})
+		}
+		w = append(w, &call{fn: 0, expr: c.text, list: c.allowed})
+	}
+	// bare listed ids in their official spelling, several times (fast paths that hand out stored results)
+	for i := 0; i < 40; i++ {
+		id := strings.TrimSuffix(genBaseID(), "+")
+		w = append(w, &call{fn: 1, expr: id}, &call{fn: 0, expr: id, list: []string{id}}, &call{fn: 1, expr: id})
 	}
 	// long lists with several different bad entries at different places (work split into batches must not change which
 	// error comes back)
@@ -443,6 +562,25 @@ func init() {
 			count("reordered_runs")
 		}
 		checkArgs("reordered runs")
+		// (b0) the caller writes into what it was given: the slices ExtractLicenses returned are overwritten and re-sorted,
+		// then the same calls are made again — a library that hands out its own storage answers differently afterwards
+		for i, c := range w {
+			if c.fn != 1 {
+				continue
+			}
+			r := implExt(c.expr)
+			for j := range r.list {
+				r.list[j] = strings.ToLower(r.list[j]) + "-overwritten"
+			}
+			sort.Sort(sort.Reverse(sort.StringSlice(r.list)))
+			got := c.run()
+			res.Evaluations += 2
+			count("returned_slice_overwritten")
+			if got != base[i] {
+				fail(failure{Stream: "oracle", What: "after the caller overwrote the slice an earlier ExtractLicenses call had returned, the same call answers differently: " + c.String(), Case: &kase{Expr: c.expr, ExprHex: hx(c.expr), Extra: map[string]string{"fn": "1", "history": "overwrite the returned slice, call again"}}, Impl: show(got), Expected: show(base[i])})
+				break
+			}
+		}
 		// (b') the same calls in FRESH processes, in the generated order, reversed and shuffled.  The generators above have
 		// already called the library (validity filters), so this process has a history before the first call of the
 		// workload; a child process executes nothing but the calls it is given, so a result that depends on earlier calls
@@ -591,6 +729,22 @@ func init() {
 		if printed.Len() > 0 {
 			fail(failure{Stream: "oracle", What: fmt.Sprintf("the library wrote %d bytes to standard output / standard error, starting: %q", printed.Len(), printed.String()[:min(printed.Len(), 120)])})
 		}
+		// (d) LAST: the caller writes into the slices the public table getters returned; the tables the library validates
+		// against (and the same calls) must be unaffected
+		if f := gettersHandOutCopies(); f != nil {
+			fail(*f)
+		} else {
+			for i, c := range w {
+				if i%7 != 0 {
+					continue
+				}
+				if got := c.run(); got != base[i] {
+					fail(failure{Stream: "oracle", What: "after the caller wrote into the slices returned by spdxlicenses.GetLicenses / GetDeprecated / GetExceptions / LicenseRanges, a call answers differently: " + c.String(), Case: &kase{Expr: c.expr, ExprHex: hx(c.expr), Allowed: c.list, Extra: map[string]string{"fn": itoa(c.fn), "history": "write into the getters' results, call again"}}, Impl: show(got), Expected: show(base[i])})
+					break
+				}
+			}
+		}
+		loadTables()
 		res.Distribution["race_detector"] = map[bool]int{true: 1, false: 0}[raceEnabled]
 		if !raceEnabled {
 			res.Notes = append(res.Notes, "this binary was built without -race")
@@ -827,7 +981,9 @@ func families() []family {
 	return []family{
 		{"and-chain", func(n int) (string, []string) { return seq(n, " AND "), someIDs }, big, 0},
 		{"or-chain", func(n int) (string, []string) { return seq(n, " OR "), []string{"FSFAP"} }, big, 0},
-		{"nesting-depth", func(n int) (string, []string) { return strings.Repeat("(", n) + "MIT" + strings.Repeat(")", n), []string{"MIT"} }, scale(1024, 8192), 0},
+		{"nesting-depth", func(n int) (string, []string) {
+			return strings.Repeat("(", n) + "MIT" + strings.Repeat(")", n), []string{"MIT"}
+		}, scale(1024, 8192), 0},
 		{"and-of-ors", func(n int) (string, []string) { return "(" + rep("MIT OR ISC", ") AND (", n) + ")", []string{"Zlib"} }, scale(11, 13), 1},
 		{"or-of-ands", func(n int) (string, []string) { return "(" + rep("MIT AND ISC", ") OR (", n) + ")", []string{"Zlib"} }, scale(128, 1024), 0},
 		{"alternating-nest", func(n int) (string, []string) { return nest(n, id), []string{"FSFAP"} }, scale(64, 256), 0},
@@ -880,7 +1036,9 @@ func families() []family {
 			}
 			return strings.Join(p, " OR "), []string{"FSFAP"}
 		}, scale(128, 512), 0},
-		{"many-spaces", func(n int) (string, []string) { return "MIT" + strings.Repeat(" ", n) + "AND ISC", []string{"MIT", "ISC"} }, scale(65536, 1<<20), 0},
+		{"many-spaces", func(n int) (string, []string) {
+			return "MIT" + strings.Repeat(" ", n) + "AND ISC", []string{"MIT", "ISC"}
+		}, scale(65536, 1<<20), 0},
 		{"plus-run", func(n int) (string, []string) { return "MIT" + strings.Repeat("+", n), []string{"MIT"} }, scale(4096, 65536), 0},
 		// chains of DISTINCT terms (LicenseRefs: listed ids run out at ~700) and lists with many redundant entries
 		{"or-chain-distinct-refs", func(n int) (string, []string) {
